@@ -7,7 +7,7 @@
    is a correspondence-level check, not yet a theorem for all circuits. *)
 From Coq Require Import ZArith QArith Bool List.
 From PV Require Import Base.Num Base.Outcome Circuit.ElemState Circuit.Tree Circuit.Token Circuit.Parser Circuit.Parser_facts.
-From PV Require Import gen.Classes_gen.
+From PV Require Import Circuit.Registry Circuit.Printer Circuit.Token_decode Circuit.Printer_lex Circuit.Parser_basic gen.Classes_gen.
 Import ListNotations.
 
 (* A container's sub-circuit — in either written form — and a whole parameter block consume only what follows
@@ -32,7 +32,47 @@ Theorem C03_one_node_per_step :
 Proof. intros reg Hreg fuel depth p. exact (proj1 (core_all reg Hreg fuel depth p)). Qed.
 Print Assumptions C03_one_node_per_step.
 
-(* NOT YET PROVED (full statements kept visible):
+(* The lexical half of the basic-syntax round trip, for EVERY circuit tree (any topology, nesting and size) and every registry
+   whose symbols have the validated shape: the scanner splits the text printed by to_string(-1) into exactly the brackets and
+   element symbols the printer wrote, in order — no symbol is merged with its neighbour or split in two. *)
+Theorem C03_basic_text_lexes_exactly :
+  forall reg, (forall r, In r reg -> valid_symbol (r_sym r) = true) ->
+  forall fuel c, tokenize (to_string reg None c fuel) = Ok (map item_tok (conn_items fuel reg c)).
+Proof. exact basic_text_tokenizes. Qed.
+Print Assumptions C03_basic_text_lexes_exactly.
+
+(* non-vacuity: the live built-in registry satisfies the hypothesis *)
+Theorem C03_builtin_registry_symbols_valid : forallb (fun r => valid_symbol (r_sym r)) builtin_registry = true.
+Proof. vm_compute. reflexivity. Qed.
+Print Assumptions C03_builtin_registry_symbols_valid.
+
+(* The basic-syntax round trip as a theorem, for EVERY circuit tree: print with to_string(-1), scan, parse.  [pconn reg pf c]
+   is the specification of the result — the printed tree with every element rebuilt at its class defaults, directly nested
+   connections of the same kind merged and one-element series unwrapped; it is None exactly when the text is refused (an empty
+   connection, a parallel connection of fewer than two items, an unknown class) or the printing fuel pf is too small for c.
+   Hypotheses: the registry's symbols have the validated shape and are distinct (both decidable; both hold for the live
+   registry, below) and the nesting stays within the parser's recursion budget.  Conclusions: the scanner accepts the text, the
+   parser accepts the tokens and returns exactly that tree, and the element types of the result, in order, are those of c. *)
+Theorem C03_basic_round_trip :
+  forall reg, syms_valid reg = true -> syms_unique reg = true ->
+  forall pf c n', pconn reg pf c = Some n' -> (2 * pf <= depth_budget)%nat ->
+  exists ts, tokenize (to_string reg None c pf) = Ok ts /\ parse_tokens reg ts = Ok (top n')
+             /\ cleaves (top n') = cleaves c.
+Proof. exact basic_round_trip_b. Qed.
+Print Assumptions C03_basic_round_trip.
+
+(* non-vacuity: the live registry meets the hypotheses, and a nested tree over it (series in parallel in series, a nested
+   same-kind connection that is merged, a one-element series that is unwrapped) has a parse result *)
+Definition c03_example : conn :=
+  let e := mkE [] [] in
+  (Ser [NE 0 e []; NC (Par [NE 1 e []; NC (Ser [NE 2 e []; NC (Ser [NE 3 e []]); NC (Par [NE 0 e []; NC (Par [NE 1 e []; NE 4 e []])])])])])%nat.
+Theorem C03_basic_round_trip_applies :
+  syms_valid builtin_registry = true /\ syms_unique builtin_registry = true /\
+  (match pconn builtin_registry 12 c03_example with Some n => list_eqb Nat.eqb (cleaves (top n)) [0; 1; 2; 3; 0; 1; 4]%nat | None => false end) = true.
+Proof. vm_compute. repeat split. Qed.
+Print Assumptions C03_basic_round_trip_applies.
+
+(* NOT YET PROVED for the extended syntax (numbers, labels, limits, sub-circuits; full statements kept visible):
    roundtrip           : forall reg d t, wf_registry reg -> wf_tree reg t -> printable t -> within_limits t -> limits_distinct d t ->
                          exists t', parse reg (serialize reg d t) = Ok t' /\ conn_close (norm (round d t)) (norm t').
    reserialize_fixpoint: serialize reg d (norm (round d t)) parses to a tree that serialises to the same text.
